@@ -381,6 +381,12 @@ func (Spec) MakeInterest(name enc.Name, config *ndn.InterestConfig, appParam enc
 	}
 	forwardingHint := (*Links)(nil)
 	if config.ForwardingHint != nil {
+		for _, hint := range config.ForwardingHint {
+			// the encoder skips a nil name: the delegation would silently disappear from the list
+			if hint == nil {
+				return nil, ndn.ErrInvalidValue{Item: "Interest.ForwardingHint", Value: nil}
+			}
+		}
 		forwardingHint = &Links{
 			Names: config.ForwardingHint,
 		}
